@@ -16,6 +16,10 @@ def level_plan(tier):
         (2, 'core', 'core', lambda i, n: 'withA', (False,)),
         (3, 'core', 'core', lambda i, n: 'withA', ('chain',)),
     ]
+    if tier == 'interp':
+        # the part of the space repeated under the other installed interpreters in the quick tier: one scope under the module, every kind and
+        # slot, the mid bundle alphabet
+        return [(1, 'full', 'full', lambda i, n: 'mid', (False,))]
     if tier == 'quick':
         return quick
     return quick + [
